@@ -155,12 +155,16 @@ class Ctx:
     # -- TLC ---------------------------------------------------------------------------
     def tlc(self, module: str, cfg: str, *, name: str | None = None, workers: int = 16,
             dump: bool = False, simulate: str | None = None, depth: int | None = None,
-            timeout: int = 3600, env: dict | None = None, coverage: bool = False,
+            timeout: int | None = None, env: dict | None = None, coverage: bool = False,
             extra_args: list[str] | None = None, allow_timeout: bool = False) -> dict:
         """Run TLC on spec/<module>.tla with the given cfg text.  Returns statistics and the
         path of the -userFile dump.  Any TLC error (invariant of the oracle violated, overflow,
         parse error) is a machinery failure."""
         name = name or module
+        if timeout is None:
+            timeout = 400 if self.tier == "quick" else 5400
+        elif self.tier == "quick":
+            timeout = min(timeout, 400)      # a quick check never waits longer than this for TLC
         cfgp = self.work / f"{name}.cfg"
         cfgp.write_text(cfg)
         meta = self.work / f"meta-{name}"
